@@ -340,6 +340,11 @@ def check(repo, rep, tier):
     from .c07 import rule_unguarded_emissions, rule_dummy_path
     rule_unguarded_emissions(repo, r6)
     rule_dummy_path(repo, r6)
+    r8 = rep.rule("R-C09-8", "gadgets emit the same wires and constraints in a branch that is taken and in one that is not "
+                  "(is_guard() hint arms vs dummy arms; shared with C07)", floor=3)
+    from .c07 import rule_hint_arms
+    from .c06 import VALUE_MODULES as _VM
+    rule_hint_arms(repo, r8, set(_VM))
     r7 = rep.rule("R-C09-7", "merges select exactly: if_then_else returns the branch value iff the condition is 1 (shared with C02)", floor=2)
     from .c02 import rule_selection
     rule_selection(repo, r7)
